@@ -460,7 +460,7 @@ PROPS["C16"] = dict(
         dict(name="asan-hsw", src="pool_harness.cpp", cfg="asan-hsw", env=ASAN_NOLEAK_ENV),
         dict(name="prod-hsw", src="pool_harness.cpp", cfg="prod-hsw", env={}),
     ],
-    require=["op:Malloc", "op:Realloc-in-place", "op:Realloc-moved", "op:Realloc-shrink-or-same", "op:Clear", "op:copy-handle", "op:move-handle",
+    require=["op:request-that-cannot-be-satisfied(near SIZE_MAX)", "op:Malloc", "op:Realloc-in-place", "op:Realloc-moved", "op:Realloc-shrink-or-same", "op:Clear", "op:copy-handle", "op:move-handle",
              "op:destroy-handle", "op:zero-size-request", "pool:user-buffer", "pool:user-buffer-misaligned", "pool:adaptive-policy",
              "pool:simple-policy", "event:new-chunk", "content-reverifications", "op:request-larger-than-chunk",
              "documents-parsed-on-small-chunk-pools", "pool:default-constructed-base-allocator"],
